@@ -41,6 +41,8 @@ type Link struct {
 	Decoded   bool       `json:"decoded,omitempty"`
 	Nonce     byte       `json:"nonce,omitempty"`
 	SpareCap  bool       `json:"spare_cap,omitempty"` // hand the policy over as a slice with spare capacity (as left by append)
+	NbfMs     *int64     `json:"nbf_ms,omitempty"`    // milliseconds relative to the instant of construction (clock histories only)
+	ExpMs     *int64     `json:"exp_ms,omitempty"`
 }
 
 type Hook struct {
@@ -62,6 +64,7 @@ type Inv struct {
 	Cause    bool     `json:"cause,omitempty"`
 	Decoded  bool     `json:"decoded,omitempty"`
 	Hook     *Hook    `json:"hook,omitempty"`
+	ExpMs    *int64   `json:"exp_ms,omitempty"` // milliseconds relative to the instant of construction (clock histories only)
 }
 
 type Case struct {
@@ -160,6 +163,12 @@ func BuildLink(l Link) (*delegation.Token, cid.Cid, []byte, error) {
 	if l.Exp != nil && l.ExpAbs == nil {
 		opts = append(opts, delegation.WithExpirationIn(dur(*l.Exp)))
 	}
+	if l.NbfMs != nil {
+		opts = append(opts, delegation.WithNotBeforeIn(time.Duration(*l.NbfMs)*time.Millisecond))
+	}
+	if l.ExpMs != nil {
+		opts = append(opts, delegation.WithExpirationIn(time.Duration(*l.ExpMs)*time.Millisecond))
+	}
 	if l.NbfAbs != nil {
 		opts = append(opts, delegation.WithNotBefore(time.Unix(*l.NbfAbs, 0)))
 	}
@@ -247,6 +256,9 @@ func BuildInv(iv Inv, prf []cid.Cid) (*invocation.Token, error) {
 	}
 	if iv.Exp != nil {
 		opts = append(opts, invocation.WithExpirationIn(dur(*iv.Exp)))
+	}
+	if iv.ExpMs != nil {
+		opts = append(opts, invocation.WithExpirationIn(time.Duration(*iv.ExpMs)*time.Millisecond))
 	}
 	if iv.NoIat {
 		opts = append(opts, invocation.WithoutInvokedAt())
